@@ -33,8 +33,15 @@ type FreeCase struct {
 func RunFree(fc FreeCase) (Event, error) {
 	d := &dialer{}
 	ctx := context.Background()
+	// connection-level settings as a caller builds them - appended one by one, so the slice has spare capacity - and shared
+	// by every connection of the pool
+	var connSettings []ch.Setting
+	for _, kv := range [][2]string{{"max_threads", "4"}, {"send_logs_level", "trace"}, {"max_block_size", "65536"}} {
+		connSettings = append(connSettings, ch.Setting{Key: kv[0], Value: kv[1], Important: true})
+	}
 	p, err := chpool.New(ctx, chpool.Options{
-		ClientOptions:     ch.Options{Dialer: d, ReadTimeout: time.Second, HandshakeTimeout: 5 * time.Second, OpenTelemetryInstrumentation: fc.Otel},
+		ClientOptions: ch.Options{Dialer: d, ReadTimeout: time.Second, HandshakeTimeout: 5 * time.Second, OpenTelemetryInstrumentation: fc.Otel,
+			Settings: connSettings},
 		MaxConns:          int32(fc.Max),
 		MinConns:          int32(fc.MinC),
 		MaxConnLifetime:   time.Duration(fc.LifeMs) * time.Millisecond,
@@ -73,7 +80,8 @@ func RunFree(fc FreeCase) (Event, error) {
 					case 0:
 						err = p.Ping(octx)
 					case 1:
-						err = p.Do(octx, ch.Query{Body: []string{"ok", "exc"}[rng.Intn(2)]})
+						err = p.Do(octx, ch.Query{Body: []string{"ok", "exc"}[rng.Intn(2)],
+							Settings: []ch.Setting{{Key: "user_tag", Value: fmt.Sprint(u), Important: true}, {Key: "iter", Value: fmt.Sprint(i)}}})
 						if ch.IsException(err) {
 							err = nil
 						}
@@ -95,7 +103,7 @@ func RunFree(fc FreeCase) (Event, error) {
 								err = c.Do(octx, ch.Query{Body: "transport"})
 								err = nil // the transport error is expected
 							default:
-								err = c.Do(octx, ch.Query{Body: "ok"})
+								err = c.Do(octx, ch.Query{Body: "ok", Settings: []ch.Setting{{Key: "user_tag", Value: fmt.Sprint(u)}}})
 							}
 							if rng.Intn(3) == 0 {
 								time.Sleep(time.Duration(rng.Intn(300)) * time.Microsecond)
